@@ -1156,7 +1156,12 @@ impl World {
         // a further stabilise must refuse to run
         let before = self.sh.log.borrow().len();
         let st = self.state.clone().unwrap();
-        let again = catch(move || st.stabilise());
+        // (through either public entry point)
+        let via_debug = choose(2) == 1;
+        if via_debug {
+            cover("stabilise_debug-after-the-panic");
+        }
+        let again = catch(move || if via_debug { st.stabilise_debug("/nonexistent/symx") } else { st.stabilise() });
         let ran = self.sh.log.borrow().len() - before;
         match again {
             Ok(()) => violation("C13/stabilise-runs-after-panic", format!("stabilise returned normally after a panic escaped the previous one ({ran} user functions ran)")),
